@@ -1086,8 +1086,18 @@ fn gen_bytes(r: &mut Rng, out: &mut Out, thorough: bool) -> Vec<u8> {
     b
 }
 
-fn accessor_ops(r: &mut Rng, bytes: &[u8]) -> Vec<String> {
+fn accessor_ops(r: &mut Rng, bytes: &[u8], thorough: bool) -> Vec<String> {
     let mut ops: Vec<String> = ACCESSORS.iter().map(|s| s.to_string()).collect();
+    // the driver's list-based model of the recursive `Display` is cubic in the nesting depth: in the thorough tier
+    // (40 000 inputs, nesting to 300) the two formatting ops run on every input of at most 128 bytes and on 1 in 8
+    // of the longer ones (quick tier: on every input)
+    if thorough && bytes.len() > 128 && !r.chance(1, 8) {
+        ops.retain(|o| o != "fmt" && o != "seq_fmt");
+    }
+    // `tlv` = `tag` + `value`, `total_len` = the public name of `container_len`: 1 input in 4 in the thorough tier
+    if thorough && !r.chance(1, 4) {
+        ops.retain(|o| o != "tlv" && o != "total_len");
+    }
     // context ids present in the input + a few others
     let mut ids: Vec<u8> = vec![0, 1, 2, 255];
     for w in bytes.windows(2) {
@@ -1122,7 +1132,7 @@ pub fn gen(a: &Args) -> String {
         let mut cr = r.fork();
         let b = gen_bytes(&mut cr, &mut out, a.thorough);
         out.stat(&format!("a_len_{}", len_bucket(b.len())), 1);
-        let ops = accessor_ops(&mut cr, &b);
+        let ops = accessor_ops(&mut cr, &b, a.thorough);
         run_case(&mut out, &Case { id, kind: format!("a {}", hex(&b)), ops });
         id += 1;
     }
